@@ -649,7 +649,7 @@ def rand_req(rng, pool):
     idform = rng.choice(forms) if fn == 'derive' else 'comp'
     zone = ''
     if fn in ('derive', 'new_cert') and rng.random() < 0.15:
-        zone, tz = rng.choice(['America/New_York', 'Europe/Berlin', 'Australia/Sydney', 'America/Los_Angeles']), 0
+        zone, tz = rng.choice(['America/New_York', 'Europe/Berlin', 'Australia/Sydney', 'America/Los_Angeles', 'Europe/London', 'Europe/Lisbon', 'Africa/Casablanca']), 0
         if rng.random() < 0.5:      # right before a change of the zone's clock
             start = {'d': days(*rng.choice([(2024, 3, 9), (2024, 3, 30), (2024, 10, 26), (2024, 11, 2), (2025, 4, 5), (2025, 10, 4)])),
                      's': rng.randrange(86400)}
